@@ -204,7 +204,9 @@ func boolToInt(b bool) int {
 func TestBitStream(t *testing.T) { rapid.Check(t, bitStreamProperty) }
 
 func FuzzBitStream(f *testing.F) {
-	f.Add([]byte{1, 2, 3, 4, 5, 6, 7, 8, 9, 10, 11, 12, 13, 14, 15, 16})
-	f.Add(bytes.Repeat([]byte{0xff, 0x00, 0x37}, 40))
+	// rapid.MakeFuzz consumes 8 input bytes per draw: seeds must be a few KiB to describe a case
+	f.Add(pseudoBytes(1, 4096))
+	f.Add(pseudoBytes(2, 8192))
+	f.Add(make([]byte, 4096))
 	f.Fuzz(rapid.MakeFuzz(bitStreamProperty))
 }
